@@ -12,8 +12,8 @@ CAP = 40000
 
 def op_valid(kind, op, net, other=None, clash=False):
     """Must the implementation accept this operation?  Decided from the state before the call
-    (ids present, the virtual tensor, ranges, permutation, dimensions) - independent of what the
-    implementation then does.  An operation that is not valid must be refused (ValueError) and
+    (ids present, the virtual tensor, ranges, permutation, dimensions, at least two legs left on every
+    fused bond) - independent of what the implementation then does.  An operation that is not valid must be refused (ValueError) and
     leave the network unchanged; a valid one must be accepted."""
     stn = net.net
     if kind == "rename_tensor":
@@ -34,7 +34,8 @@ def op_valid(kind, op, net, other=None, clash=False):
             return False
     if kind in ("merge", "merge_self"):
         s1, s2 = stn.tensors[-1].shape, other.net.tensors[-1].shape
-        return all(0 <= a < len(s1) and 0 <= b < len(s2) and s1[a] == s2[b] for a, b in op[2]) and not clash
+        return (all(0 <= a < len(s1) and 0 <= b < len(s2) and s1[a] == s2[b] for a, b in op[2]) and not clash
+                and not merge_starves_a_bond(net, other, [tuple(j) for j in op[2]]))
     raise RuntimeError(kind)
 
 
@@ -42,8 +43,11 @@ def merge_starves_a_bond(net, other, joins):
     """Do the joins leave a (fused) bond with fewer than two legs?  Decided from the two operands before the call.  The joined
     open axes disappear; a bond that consists of open legs only (an idle wire) and is joined at ALL its legs with such bonds
     becomes a free loop (a scalar factor = its dimension), one that keeps a single leg a free sum - neither is a network the
-    consistency check admits (every bond needs >= 2 legs).  /repo notices it by `assert len(bond.tids) >= 2` AFTER it has
-    included the second operand's tensors and bonds and fused the virtual tensors: known finding, see notes/C08.md."""
+    consistency check admits (every bond needs >= 2 legs), so such a merge is INVALID: it must be refused (ValueError) with
+    both operands unchanged (op_valid).  The unrepaired code noticed it by `assert len(bond.tids) >= 2` AFTER it had included
+    the second operand's tensors and bonds and fused the virtual tensors (repaired defect, see notes/C08.md); this
+    classification (union-find over ALL bonds of the operands) is independent of the code's own test (sequential fusing of the
+    labelled bonds of the joined axes)."""
     b1, b2 = list(net.net.tensors[-1].bids), list(other.net.tensors[-1].bids)
     if not all(0 <= a < len(b1) and 0 <= b < len(b2) for a, b in joins):
         return False
@@ -70,6 +74,7 @@ def merge_starves_a_bond(net, other, joins):
     return any(legs[r] < 2 for r in touched)
 
 
+# the repaired defect: reported under its own sig when it comes back (listed under `fixed`, so it is a VIOLATION)
 STARVED_SIG = "merge:joins-leave-a-bond-with-fewer-than-two-legs:AssertionError-after-the-operands-were-half-merged"
 
 
@@ -169,9 +174,8 @@ def exec_sequence(desc, ops, build=None):
                 ovb = other_vbids(other)
                 clash = any(k in net.data and not np.array_equal(net.data[k], other.data[k]) for k in other.data)
                 valid = op_valid(kind, op, net, other, clash)
-                starved = bool(valid) and merge_starves_a_bond(net, other, joins)
-                if starved:
-                    valid = None          # not representable: a clean refusal is fine, see merge_starves_a_bond
+                # joins that would leave a bond with fewer than two legs: invalid (op_valid), to be refused before anything changes
+                starved = merge_starves_a_bond(net, other, joins)
                 if kind == "merge":
                     others.append((other, osnap))
                 # the iteration order of the Python sets `self.keys() & other.keys()` inside merge is an input
@@ -230,7 +234,8 @@ def exec_sequence(desc, ops, build=None):
         except Exception as e:
             if starved and isinstance(e, AssertionError):
                 fails.append((STARVED_SIG, "ValueError before anything is changed",
-                              "AssertionError; first operand consistent afterwards: %s" % safe_consistent(net.net)))
+                              "AssertionError; first operand unchanged: %s, consistent afterwards: %s"
+                              % (tn.snapshot(net.net) == before, safe_consistent(net.net))))
             else:
                 fails.append(("%s:exception:%s" % (kind, type(e).__name__), "ValueError or accept", repr(e)))
             rec["steps"].append({"op": op, "term": term, "obs": "crash"})
@@ -241,12 +246,15 @@ def exec_sequence(desc, ops, build=None):
                 fails.append((kind + ":refused-but-state-changed", "unchanged", "changed"))
             if valid:
                 fails.append((kind + ":refuses-valid-operation", "accepted", "ValueError"))
+            if starved and valid is False:
+                rec["starved_refused"] = rec.get("starved_refused", 0) + 1
             rec["steps"].append({"op": op, "term": term, "obs": None, "skip": term is None})
             continue
         cons = bool(safe_consistent(net.net))
         if valid is False and not clash:
             # the code must refuse it: renaming the virtual tensor, axes that are not a permutation of all
-            # open axes, joins out of range or of unequal dimension.  Nothing is claimed about the state
+            # open axes, joins out of range, of unequal dimension or leaving a bond with fewer than two legs.
+            # Nothing is claimed about the state
             # such a call leaves; the sequence ends here
             fails.append((kind + ":accepts-invalid-operation", "ValueError", "accepted"))
             if not cons:
@@ -734,16 +742,26 @@ DIRECTED += [
     ("merge-with-itself", _G, [["merge_self", None, [[0, 2]]], ["merge_self", None, []]]),
     ("rename-to-existing-and-missing", _G, [["rename_tensor", 0, -1], ["rename_tensor", 7, 8], ["rename_tensor", 0, 0],
                                             ["rename_bond", 1, 2], ["rename_bond", 9, 3], ["rename_bond", 1, -1], ["rename_tensor", 0, -7]]),
-    # joins that close idle wires completely / leave one leg (KNOWN FINDING on the unrepaired /repo: AssertionError after a partial merge)
+    # joins that close idle wires completely / leave one leg: must be REFUSED with both operands unchanged and the network still
+    # usable (repaired defect: the unrepaired code raised AssertionError after a partial merge and left the first operand broken)
     ("merge-closes-an-idle-wire-onto-an-idle-wire", {"tensors": [[-1, [2, 2], [0, 0], None]], "bonds": None, "data": {}},
-     [["merge", {"tensors": [[-1, [2, 2], [0, 0], None]], "bonds": None, "data": {}}, [[0, 0], [1, 1]]]]),
+     [["merge", {"tensors": [[-1, [2, 2], [0, 0], None]], "bonds": None, "data": {}}, [[0, 0], [1, 1]]],
+      ["merge", {"tensors": [[-1, [2, 2], [0, 0], None]], "bonds": None, "data": {}}, [[1, 1], [0, 0], [1, 1]]],
+      ["merge", {"tensors": [[-1, [2, 2], [0, 0], None]], "bonds": None, "data": {}}, [[1, 0]]], ["transpose", [1, 0]],
+      ["merge", {"tensors": [[-1, [2, 2], [0, 0], None]], "bonds": None, "data": {}}, [[0, 1], [1, 0]]]]),
     ("merge-joins-both-ends-of-a-wire-with-one-open-leg", {"tensors": [[0, [2], [3], "a"], [-1, [2], [3], None]], "bonds": None,
                                                            "data": {"a": {"shape": [2], "re": [1, 2], "im": None}}},
-     [["merge", {"tensors": [[-1, [2, 2], [5, 5], None]], "bonds": None, "data": {}}, [[0, 0], [0, 1]]]]),
+     [["merge", {"tensors": [[-1, [2, 2], [5, 5], None]], "bonds": None, "data": {}}, [[0, 0], [0, 1]]],
+      ["merge", {"tensors": [[-1, [2, 2], [5, 5], None]], "bonds": None, "data": {}}, [[0, 1]]], ["rename_tensor", 0, 4], ["transpose", [0]]]),
+    ("merge-four-open-legs-on-one-bond-lose-three-or-four", {"tensors": [[-1, [2, 2, 2, 2], [7, 7, 7, 7], None]], "bonds": None, "data": {}},
+     [["merge", {"tensors": [[-1, [2, 2], [0, 0], None], [3, [2], [1], "v"], [5, [2], [1], "v"]], "bonds": None,
+                 "data": {"v": {"shape": [2], "re": [1, 2], "im": None}}}, [[0, 0], [1, 1], [2, 0], [3, 1]]],
+      ["merge", {"tensors": [[-1, [2, 2], [0, 0], None]], "bonds": None, "data": {}}, [[0, 0], [1, 1], [2, 0]]],
+      ["merge", {"tensors": [[-1, [2, 2], [0, 0], None]], "bonds": None, "data": {}}, [[0, 0], [1, 1]]], ["transpose", None]]),
     ("merge-wire-with-one-end-joined-stays-fine", _G,
      [["merge", {"tensors": [[-1, [2, 2], [5, 5], None]], "bonds": None, "data": {}}, [[0, 0]]],
       ["merge", {"tensors": [[-1, [2, 2], [5, 5], None]], "bonds": None, "data": {}}, [[1, 0], [2, 1]]], ["transpose", None]]),
-    ("merge-with-itself-closes-an-idle-wire", {"tensors": [[-1, [2, 2], [0, 0], None]], "bonds": None, "data": {}}, [["merge_self", None, [[0, 0], [1, 1]]]]),
+    ("merge-with-itself-closes-an-idle-wire", {"tensors": [[-1, [2, 2], [0, 0], None]], "bonds": None, "data": {}}, [["merge_self", None, [[0, 0], [1, 1]]], ["merge_self", None, [[0, 1]]], ["transpose", None]]),
     # data dictionaries that disagree on a key: must be refused
     ("merge-data-clash", _G, [["merge", {"tensors": [[1, [2], [0], "a"], [-1, [2], [0], None]], "bonds": None,
                                          "data": {"a": {"shape": [2], "re": [1, 1], "im": None}}}, [[0, 0]]]]),
@@ -858,9 +876,11 @@ def run(ctx):
                        "for every order); TensorNetwork.merge's data-dictionary union is not modelled (datarefs are codes); "
                        "'never modifies the second operand' is checked on the implementation by deep snapshots")
     ctx.assumes.append("model = /repo with the repairs C08-merge-dedupe-del-axes, C08-transpose-default-axes, C07-is-consistent-leg-count (applied) and "
-                       "proposed_fixes/C08-transpose-requires-permutation.diff, C08-merge-checks-join-dimensions.diff, C08-rename-tensor-refuses-virtual.diff: "
+                       "proposed_fixes/C08-transpose-requires-permutation.diff, C08-merge-checks-join-dimensions.diff, C08-rename-tensor-refuses-virtual.diff, "
+                       "C08-merge-refuses-joins-that-starve-a-bond.diff: "
                        "the code itself refuses renaming the virtual tensor -1, axes that are not a permutation of all open axes (negative entries count "
-                       "from the last axis) and joins of unequal dimension, so the theorems carry no guard on the arguments; the only hypothesis left is that "
+                       "from the last axis), joins of unequal dimension and (before it changes anything) joins that would leave a fused bond with fewer "
+                       "than two legs, so the theorems carry no guard on the arguments; the only hypothesis left is that "
                        "the second operand of a merge is itself consistent")
     ctx.trusted.append("TN translation (gen/tn.py -> Run.GenTN, fail-closed): merge's fresh-id arithmetic / join validation / del_axes / kept axes, "
                        "the preconditions of rename_tensor, rename_bond, SymbolicBond, SymbolicTensor.transpose, every `return False` condition of "
@@ -868,13 +888,16 @@ def run(ctx):
                        "delegation to _rename_tensor, transpose's normalisation of negative axes / permutation test / selection, merge's dimension test are "
                        "regenerated from symbolic_network.py and proved equal to what the model uses (C07_source_*, C08_source_*); PINNED by exact source text, "
                        "not translated: the loop skeleton of is_consistent, its pair-repetition test, as_einsum's first-occurrence rule, the statement order of "
-                       "transpose and of merge's validation loop; "
+                       "transpose and of merge's validation loop, the statements of merge's leg-count refusal (gen/tn.py MERGE_LEGS_GUARD, hand model "
+                       "TNModel.joins_starve; only its final comparison is translated and proved to have the assertion's threshold); that this refusal "
+                       "fires exactly when the assertion of the deletion loop would is proved for a finite family only (C08_..._bounded) and otherwise checked "
+                       "on every merge of the run by an independent union-find classification; "
                        "all loops (rename, merge_tensors/bonds, get_bond_axes, as_einsum unification/condensation, tree builder) stay hand-modelled")
     ctx.rules.append("random consistent networks (0-6 tensors, degree<=4, bond dims 1-3, hyper-bonds, multi-edges, self-traces, shared "
                      "open bonds, identity wires, negative/colliding ids) x random operation sequences (length<=12; rename_tensor, "
                      "rename_bond, transpose incl. refused ones, merge with colliding ids / shared datarefs equal+unequal / joins "
                      "reusing axes / out-of-range joins; ~10% edge inputs: rename of the virtual tensor, partial / repeating / negative / "
-                     "out-of-range axes, joins of unequal dimension, merge with itself). Every operation is classified valid/invalid from the "
+                     "out-of-range axes, joins of unequal dimension, merge with itself; joins that close identity wires / leave a bond with 0 or 1 legs). Every operation is classified valid/invalid from the "
                      "state before the call (numpy.transpose is the reference for axes): valid ones must be accepted, invalid ones refused "
                      "with the state unchanged. Ownership of constructor arguments: wraps built by hand / two tensors with equal bond lists / "
                      "random networks, merged with an equally described wrap and with an equal copy of themselves, then random surgery, built by a caller who "
@@ -885,7 +908,7 @@ def run(ctx):
                      "tensor-free member, then the history continues (rename what came from the operand, merge again with a closed and an open network, "
                      "with itself, transpose, random surgery); counts, TensorNetwork.is_consistent, value, both contractions after every step. "
                      "non-trivial = sequence with >=1 accepted operation on a network with >=1 bond")
-    ctx.lib(["TN/TNCheck", "TN/TNSem", "TN/TNMergeValue", "TN/TNConsistentConv", "TN/TNGenBase"])
+    ctx.lib(["TN/TNCheck", "TN/TNSem", "TN/TNMergeValue", "TN/TNConsistentConv", "TN/TNGenBase", "TN/TNMergeGuard"])
     ctx.translate("GenTN", tn.generate)
     ctx.props()
     rng = ctx.rng
@@ -931,6 +954,7 @@ def run(ctx):
                     ctx.count("merge_with_joins")
         if rec.get("clash"):
             ctx.count("merge_data_clash_raised_after_symbolic_merge")
+        ctx.count("merge_refused_because_the_joins_would_leave_a_bond_with_fewer_than_two_legs", rec.get("starved_refused", 0))
         ctx.count("merge_set_order_recorded_from_the_call", rec.get("set_order_recorded", 0))
         ctx.count("merge_set_order_differs_from_recomputation", rec.get("set_order_differs", 0))
         ctx.count("seq_len=%d" % len(ops))
